@@ -208,4 +208,21 @@ PROPS["C06"] = dict(
     thorough=dict(checks=5000, shards=16, timeout=3000, shrinktime=30),
 )
 
+PROPS["C16"] = dict(
+    pkg="c16",
+    level="exploration",
+    technique="property-based testing (rapid) over producer configurations: signatures made by the openssl CLI at check time + committed OpenSSL corpus + cross-checked emulation + repository fixtures; differential against the reference verifier",
+    level_text=("Signatures are produced by `openssl smime -sign` / `openssl cms -sign` crossed with -nodetach, -nosmimecap, -nocerts, -cades, receipt request and -noattr over generated contents (0..64 KiB), pool keys and "
+                "generated certificates when the binary is present; the whole committed corpus of 66 OpenSSL-made signatures and the sbsign/sbvarsign artefacts are always run; a harness emulation of the same producers "
+                "(cross-checked against the binary's attribute order) varies signing times 1950..2049 and sizes. Oracle: ParsePKCS7 succeeds; with signed attributes Verify(signer) == (true, nil) and Verify is not true for an "
+                "unrelated certificate, one with the same issuer+serial on another key and one on the same key with another serial; Attributes.Marshal() of the parsed values equals the attribute bytes that were signed; "
+                "without signed attributes parsing succeeds and Verify ends negative or with an error."),
+    level_note=("Only OpenSSL 3.5.6 exists on this image (recorded in evidence; without it the committed corpus, the emulation and the fixtures still decide). sbsign/sbvarsign are represented by the repository fixtures only. "
+                "-keyid (subjectKeyIdentifier signer ids) is outside the statement and not generated."),
+    rule=("case = (third-party signature, content, signer certificate). Non-trivial = blob with >= 4 signed attributes, or attached content, or no embedded certificates; distinct by SHA-256 of the blob."),
+    assumptions=["openssl CLI output is a correct third-party signature (every sample is also accepted by the reference verifier before it is used)"],
+    quick=dict(checks=300, shards=4, timeout=900, shrinktime=15),
+    thorough=dict(checks=3000, shards=16, timeout=3000, shrinktime=30),
+)
+
 NOT_APPLICABLE = _NA()
